@@ -7,6 +7,8 @@ R2  registry integrity: allowed_keywords is appended only by add_keyword; every 
 R3  case-insensitivity on both sides (to_lower_cppstr in add_keyword, key_lookup, check_keywords)
 R4  CRLF: configuration/state text lines are read through colvarmodule::getline
 R5  typed extraction failures raise
+R6  end-of-text tests of the scanners are satisfiable: a cursor that is only ever set to positions inside the text it
+    scans or to the size of that text is compared with that size by an operator that holds at equality
 """
 from . import expr as X
 from . import cond as C
@@ -506,9 +508,122 @@ def r5(F, rep):
     rep.count("typed_extraction_bodies", n)
 
 
+# ------------------------------------------------------------------------------------------------ R6
+NPOS = "::npos"
+
+
+def _size_of(f, n):
+    """key of the container E when n is E.size() / E.length() on a const container, else None."""
+    n = X.strip(n)
+    if n["k"] != "CXXMemberCallExpr" or not (n.get("cq") or "").endswith(("::size", "::length")):
+        return None
+    r = X.receiver(n)
+    if r is None:
+        return None
+    r = X.strip(r)
+    if r["k"] != "DeclRefExpr" or "const" not in f.typestr(r.get("t")):
+        return None
+    return X.key(r, f)
+
+
+def _defs(f, d):
+    """(site, rhs) of every definition of the local with declaration id d; rhs None for a write that is not `=`."""
+    out = []
+    for n in f.walk():
+        if n["k"] == "VarDecl" and n.get("d") == d:
+            ks = X.kids(n)
+            out.append((n, ks[0] if ks else None))
+    from .rules_c10 import lvalue_writes
+    for w, t in lvalue_writes(f):
+        t = X.strip(t)
+        if t["k"] == "DeclRefExpr" and t.get("d") == d:
+            if w["k"] == "BinaryOperator" and w.get("op") == "=":
+                out.append((w, X.kids(w)[1]))
+            else:
+                out.append((w, None))
+    return out
+
+
+def _npos_test(f, cond, d):
+    """+1 if cond is `w == npos`, -1 if `w != npos` for the local w with declaration id d, else 0."""
+    c = X.strip(cond)
+    if c["k"] != "BinaryOperator" or c.get("op") not in ("==", "!="):
+        return 0
+    a, b = [X.strip(k) for k in X.kids(c)]
+    for p, q in ((a, b), (b, a)):
+        if p["k"] == "DeclRefExpr" and p.get("d") == d and X.key(q, f).endswith(NPOS):
+            return 1 if c["op"] == "==" else -1
+    return 0
+
+
+def _within(F, f, e, cont, site, depth=0):
+    """True when expression e (evaluated at `site`) is a position in 0..size(cont)."""
+    from .rules_c03 import structural_guards
+    e = X.strip(e)
+    if _size_of(f, e) == cont:
+        return True
+    if C._lit(e) == 0:
+        return True
+    if e["k"] == "ConditionalOperator":
+        c, a, b = X.kids(e)
+        return _within(F, f, a, cont, a, depth) and _within(F, f, b, cont, b, depth)
+    if e["k"] == "DeclRefExpr" and e.get("st") == "local" and depth < 3:
+        d = e.get("d")
+        ds = _defs(f, d)
+        if not ds:
+            return False
+        # a search result in cont, used where it is known not to be npos
+        if all(r is not None and X.strip(r)["k"] == "CXXMemberCallExpr" and
+               (X.strip(r).get("cq") or "").split("::")[-1] in ("find", "rfind", "find_first_of", "find_first_not_of", "find_last_of", "find_last_not_of") and
+               X.receiver(X.strip(r)) is not None and X.key(X.receiver(X.strip(r)), f) == cont for _, r in ds):
+            for cn, pol in structural_guards(f, site):
+                t = _npos_test(f, cn, d)
+                if (t == 1 and not pol) or (t == -1 and pol):
+                    return True
+            return False
+        return all(r is not None and _within(F, f, r, cont, s, depth + 1) for s, r in ds)
+    return False
+
+
+def r6(F, rep):
+    rep.rule("C09-R6", "end-of-text tests are satisfiable: where a scanner compares a cursor with the size of the constant text "
+                       "it scans, and every definition of the cursor is a position inside that text (a search result known not "
+                       "to be npos, zero) or the size itself, the comparison holds at equality (>=, ==) or is the loop test "
+                       "`<`: `cursor > size` can never be true, so the end-of-text exit it guards is dead and the scanner "
+                       "cannot leave its loop on exhausted input")
+    n = 0
+    for f in F.funcs.values():
+        if "/src/" not in f.file or f.body is None:
+            continue
+        for c in f.walk():
+            if c["k"] != "BinaryOperator" or c.get("op") not in (">", ">=", "<", "<=", "==", "!="):
+                continue
+            a, b = X.kids(c)
+            op = c["op"]
+            cont = _size_of(f, b)
+            cur = X.strip(a)
+            if cont is None:
+                cont = _size_of(f, a)
+                cur = X.strip(b)
+                op = {">": "<", "<": ">", ">=": "<=", "<=": ">="}.get(op, op)
+            if cont is None or cur["k"] != "DeclRefExpr" or cur.get("st") != "local":
+                continue
+            if not _within(F, f, cur, cont, c):
+                continue
+            n += 1
+            ok = op not in (">", "<=")
+            rep.add("C09-R6", "%s|%s %s size(%s)" % (f.q, X.re_strip(X.key(cur, f)), op, X.re_strip(cont)), f.loc(c),
+                    "%s: cursor `%s` never exceeds %s.size(); it is tested with `%s`" % (f.q, cur.get("n") or X.key(cur, f), X.re_strip(cont), op), ok,
+                    detail="`cursor > size` is never true and `cursor <= size` always is: the test cannot detect the end of the text", func=f.q)
+    if n < 1:
+        raise AnalysisBroken("C09-R6: no bounded-cursor comparison found (colvarparse::key_lookup: line_end >= conf.size() expected)")
+    rep.count("bounded_cursor_tests", n)
+
+
 def run(F, rep, tier):
     R1(F, rep).run()
     r2(F, rep)
     r3(F, rep)
     r4(F, rep)
     r5(F, rep)
+    r6(F, rep)
